@@ -33,6 +33,8 @@ struct Cx<'a> {
     kind_ord: std::collections::HashMap<&'static str, usize>,
     kloops_seen: Vec<(String, usize)>,
     loop_stack: Vec<(String, usize)>, // (label kind#k, arm counter inside that loop)
+    if_ord: usize,
+    if_stack: Vec<usize>, // if counter inside the innermost loop
 }
 
 fn pat_idents(p: &syn::Pat, out: &mut Vec<String>) {
@@ -508,7 +510,7 @@ impl<'a, 'ast> Visit<'ast> for Cx<'a> {
             let s = c.or1_token.span().byte_range().start;
             let e = c.body.span().byte_range().start;
             // by-value bindings under & in params still need their lets
-            let mut scratch = Cx { src: self.src, slot: self.slot, retarget: self.retarget, edits: vec![], log: vec![], seq: 0, err: None, loop_ord: 0, closure_ord: 0, base_line: self.base_line, loops_seen: vec![], closures_seen: vec![], let_counts: Default::default(), let_hints_used: vec![], arm_ord: 0, kind_ord: Default::default(), kloops_seen: vec![], loop_stack: vec![] };
+            let mut scratch = Cx { src: self.src, slot: self.slot, retarget: self.retarget, edits: vec![], log: vec![], seq: 0, err: None, loop_ord: 0, closure_ord: 0, base_line: self.base_line, loops_seen: vec![], closures_seen: vec![], let_counts: Default::default(), let_hints_used: vec![], arm_ord: 0, kind_ord: Default::default(), kloops_seen: vec![], loop_stack: vec![], if_ord: 0, if_stack: vec![] };
             // names of the header's parameters, positionally
             let hdr_names: Vec<String> = {
                 let h = header.trim();
@@ -623,8 +625,10 @@ impl<'a, 'ast> Visit<'ast> for Cx<'a> {
         self.hint_for_loop(ord, &f.body);
         let __lbl = self.kloops_seen.last().map(|(k, n)| format!("{}#{}", k, n)).unwrap_or_default();
         self.loop_stack.push((__lbl, 0));
+        self.if_stack.push(0);
         self.visit_block(&f.body);
         self.loop_stack.pop();
+        self.if_stack.pop();
     }
 
     fn visit_expr_while(&mut self, w: &'ast syn::ExprWhile) {
@@ -637,9 +641,11 @@ impl<'a, 'ast> Visit<'ast> for Cx<'a> {
         self.hint_for_loop(ord, &w.body);
         let __lbl = self.kloops_seen.last().map(|(k, n)| format!("{}#{}", k, n)).unwrap_or_default();
         self.loop_stack.push((__lbl, 0));
+        self.if_stack.push(0);
         self.visit_expr(&w.cond);
         self.visit_block(&w.body);
         self.loop_stack.pop();
+        self.if_stack.pop();
     }
 
     fn visit_expr_loop(&mut self, l: &'ast syn::ExprLoop) {
@@ -652,8 +658,28 @@ impl<'a, 'ast> Visit<'ast> for Cx<'a> {
         self.hint_for_loop(ord, &l.body);
         let __lbl = self.kloops_seen.last().map(|(k, n)| format!("{}#{}", k, n)).unwrap_or_default();
         self.loop_stack.push((__lbl, 0));
+        self.if_stack.push(0);
         self.visit_block(&l.body);
         self.loop_stack.pop();
+        self.if_stack.pop();
+    }
+
+    fn visit_expr_if(&mut self, i: &'ast syn::ExprIf) {
+        // structural hint anchors: if_then K / if_then <loop>.K -> start of the then-block of the K-th `if`
+        let ord = self.if_ord;
+        self.if_ord += 1;
+        let mut keys = vec![format!("if_then {}", ord)];
+        if let (Some((label, _)), Some(n)) = (self.loop_stack.last(), self.if_stack.last_mut()) {
+            keys.push(format!("if_then {}.{}", label, n));
+            *n += 1;
+        }
+        let hs: Vec<(String, String)> = self.slot.hints.iter().filter(|h| keys.contains(&h.0)).cloned().collect();
+        for (w, t) in hs {
+            let open = i.then_branch.brace_token.span.open().byte_range().end;
+            self.insert(open, format!(" {} ", t));
+            self.let_hints_used.push(w);
+        }
+        syn::visit::visit_expr_if(self, i);
     }
 
     fn visit_expr_macro(&mut self, m: &'ast syn::ExprMacro) {
@@ -715,6 +741,35 @@ impl<'a, 'ast> Visit<'ast> for Cx<'a> {
             }
         }
         syn::visit::visit_expr_method_call(self, m);
+    }
+
+    fn visit_expr_reference(&mut self, r: &'ast syn::ExprReference) {
+        // N11: `&s[n..]` => target(s, n) when the template retargets `[..]`
+        if r.mutability.is_none() {
+            if let syn::Expr::Index(ix) = &*r.expr {
+                if let syn::Expr::Range(rg) = &*ix.index {
+                    if rg.end.is_none() && matches!(rg.limits, syn::RangeLimits::HalfOpen(_)) {
+                        if let Some(start) = &rg.start {
+                            let hit = self.slot.retarget.iter().chain(self.retarget.iter()).find(|(a, _)| a == "[..]").map(|(_, b)| b.clone());
+                            if let Some(target) = hit {
+                                let whole = r.span().byte_range();
+                                let base = ix.expr.span().byte_range();
+                                let st = start.span().byte_range();
+                                let before = self.src[whole.clone()].to_string();
+                                self.replace(whole.start..base.start, format!("{}(", target));
+                                self.replace(base.end..st.start, ", ");
+                                self.replace(st.end..whole.end, ")");
+                                self.note("N11", whole.start, &before, &format!("{}(<str>, <from>)", target));
+                                self.visit_expr(&ix.expr);
+                                self.visit_expr(start);
+                                return;
+                            }
+                        }
+                    }
+                }
+            }
+        }
+        syn::visit::visit_expr_reference(self, r);
     }
 
     fn visit_expr_call(&mut self, c: &'ast syn::ExprCall) {
@@ -794,7 +849,7 @@ pub fn rewrite_body(slot: &SlotSpec, found: &Found, retarget: &[(String, String)
         text = text.replacen(a.as_str(), b, 1);
     }
     let block: syn::Block = syn::parse_str(&text).map_err(|e| Undecided(format!("body does not parse: {}", e)))?;
-    let mut cx = Cx { src: &text, slot, retarget, edits: vec![], log: vec![], seq: 0, err: None, loop_ord: 0, closure_ord: 0, base_line: found.body_line_start, loops_seen: vec![], closures_seen: vec![], let_counts: Default::default(), let_hints_used: vec![], arm_ord: 0, kind_ord: Default::default(), kloops_seen: vec![], loop_stack: vec![] };
+    let mut cx = Cx { src: &text, slot, retarget, edits: vec![], log: vec![], seq: 0, err: None, loop_ord: 0, closure_ord: 0, base_line: found.body_line_start, loops_seen: vec![], closures_seen: vec![], let_counts: Default::default(), let_hints_used: vec![], arm_ord: 0, kind_ord: Default::default(), kloops_seen: vec![], loop_stack: vec![], if_ord: 0, if_stack: vec![] };
     for st in &block.stmts {
         cx.visit_stmt(st);
     }
@@ -835,7 +890,7 @@ pub fn rewrite_body(slot: &SlotSpec, found: &Found, retarget: &[(String, String)
             }
             let p = text.find(anchor).unwrap() + anchor.len();
             cx.insert(p, format!(" {} ", t));
-        } else if w.starts_with("after_let ") || w.starts_with("arm_start ") || w.starts_with("arm_end ") {
+        } else if w.starts_with("after_let ") || w.starts_with("arm_start ") || w.starts_with("arm_end ") || w.starts_with("if_then ") {
             if !cx.let_hints_used.contains(w) {
                 bail!("lost anchor: hint `{}`: no such let binding", w);
             }
